@@ -187,6 +187,10 @@ let run_case (t : string list) : string =
       | KACTL _ -> "acTL" | KFCTL q -> Printf.sprintf "fcTL:%d" (int_of_nat q) | KIDAT -> "IDAT"
       | KFDAT q -> Printf.sprintf "fdAT:%d" (int_of_nat q) | KIEND -> "IEND" | KIHDR -> "IHDR" | KPLTE -> "PLTE" | KANC -> "anc") log)
     ^ " | " ^ String.concat "," (List.map (fun r -> match r with FOk -> "ok" | FErrSink -> "sink" | FErrEndReached -> "end" | FErrMissingFrames -> "missing") rs)
+  | ["rowcharge"; first; rest] ->
+    (* bytes charged against the limit for the shared row buffer after each further frame (row sizes, comma separated) *)
+    let l = if rest = "-" then [] else List.map zs (String.split_on_char ',' rest) in
+    String.concat "," (List.map (fun n -> string_of_int (int_of_z n)) (rc_charged (zs first) l))
   | ["frect"; w; h; ops] ->
     (* frame-rectangle setters and images on an animated encoder: D<w>x<h> | P<x>x<y> | RD | RP | I, comma separated *)
     let two s = match String.split_on_char 'x' s with [a; b] -> (zs a, zs b) | _ -> failwith "frect" in
